@@ -402,11 +402,29 @@ class RemovalHistories:
         # frame: None = a one-frame ForSys; 0 / 1 = removals at that frame of a two-frame ForSys (same tissue at two times)
         return [{"removed": [], "frame": f} for f in (None, 0, 1)]
 
+    OBSERVERS = ["stress", "tensions", "pressure_matrix", "force_matrix"]
+
     def actions(self, d):
-        return [["remove", c] for c in sorted(self.at["C"], key=int) if c not in d["removed"]]
+        acts = [["remove", c] for c in sorted(self.at["C"], key=int) if ["remove", c] not in d["removed"] and c not in d["removed"]]
+        # read-only library calls (analysis, tables, matrix assembly): they must leave the cells' vertex bookkeeping alone
+        acts += [["obs", o] for o in self.OBSERVERS if not d["removed"] or d["removed"][-1] != ["obs", o]]
+        return acts
 
     def step(self, d, a):
-        return {"removed": d["removed"] + [a[1]], "frame": d["frame"]}
+        return {"removed": d["removed"] + [a[1] if a[0] == "remove" else list(a)], "frame": d["frame"]}
+
+    @staticmethod
+    def _run_observer(s, fno, name):
+        fr = s.frames[fno]
+        if name == "stress":
+            for cid in list(fr.cells):
+                fr.cells[cid].pressure = 0.5
+            return fsutil.call(fr.calculate_stress_tensor, 3, 1.0)
+        if name == "tensions":
+            return fsutil.call(fr.get_tensions, with_border=True)
+        if name == "pressure_matrix":
+            return fsutil.call(s.build_pressure_matrix, when=fno)
+        return fsutil.call(s.build_force_matrix, when=fno)
 
     @staticmethod
     def _observe(frame, inv):
@@ -444,14 +462,25 @@ class RemovalHistories:
         obs = None
         if d["frame"] is not None:
             tags.append("two_frames_at_%d" % fno)
+        gone = []
         for n, cid in enumerate(d["removed"]):
-            with fsutil.quiet():
-                _, ex = fsutil.call(s.remove_cell, fno, cellid[cid])
-            if ex is not None:
-                viol.append({"what": "remove_cell raised", "detail": {"removed": d["removed"][:n + 1], "exc": fsutil.exc_str(ex)}})
-                ex = None
-                break
-            tags.append("removed_%d" % (n + 1))
+            if isinstance(cid, list):
+                with fsutil.quiet():
+                    _, ex = self._run_observer(s, fno, cid[1])
+                tags.append("observer:" + cid[1])
+                if ex is not None:
+                    # what the analysis call itself does is another property's business; only its side effects matter here
+                    tags.append("observer_raised")
+                    ex = None
+            else:
+                with fsutil.quiet():
+                    _, ex = fsutil.call(s.remove_cell, fno, cellid[cid])
+                if ex is not None:
+                    viol.append({"what": "remove_cell raised", "detail": {"removed": d["removed"][:n + 1], "exc": fsutil.exc_str(ex)}})
+                    ex = None
+                    break
+                gone.append(cid)
+                tags.append("removed_%d" % len(gone))
             if d["frame"] is not None:
                 other = self._observe(s.frames[1 - fno], inv)
                 if sorted(other["share"], key=int) != sorted(self.at["C"], key=int) or any(other["stored"][x] != other["share"][x] for x in other["share"]):
@@ -459,14 +488,14 @@ class RemovalHistories:
                                  "detail": {"asked_frame": fno, "other_frame_cells": len(other["share"]), "expected": len(self.at["C"])}})
                     break
             obs = self._observe(s.frames[fno], inv)
-            remaining = sorted(set(self.at["C"]) - set(d["removed"][:n + 1]), key=int)
+            remaining = sorted(set(self.at["C"]) - set(gone), key=int)
             if sorted(obs["share"], key=int) != remaining:
                 viol.append({"what": "after remove_cell the frame does not hold exactly the remaining cells", "detail": {"got": sorted(obs["share"], key=int), "exp": remaining}})
                 break
             for which in ("stored", "fresh"):
                 bad = [x for x in remaining if obs[which][x] != obs["share"][x]]
                 if bad:
-                    viol.append({"what": "after remove_cell the %s neighbours of a cell are not the other cells sharing a vertex with it" % ("stored (Frame-populated)" if which == "stored" else "recomputed"),
+                    viol.append({"what": "after %s the %s neighbours of a cell are not the other cells sharing a vertex with it" % ("remove_cell" if not isinstance(cid, list) else "the read-only call '%s'" % cid[1], "stored (Frame-populated)" if which == "stored" else "recomputed"),
                                  "detail": {"removed": d["removed"][:n + 1], "cell": bad[0], "got": obs[which][bad[0]], "exp": obs["share"][bad[0]]}})
                     break
             if viol:
@@ -484,7 +513,7 @@ class RemovalHistories:
                     break
             else:
                 tags.append("subtissue_with_hole_or_pinch")
-        key = "%s|%s|%s" % (self.base, d["frame"], ",".join(d["removed"]))
+        key = "%s|%s|%s" % (self.base, d["frame"], ",".join(map(str, d["removed"])))
         return {"key": key, "viol": viol, "tags": sorted(set(tags)), "cls": "%s/%d/%s" % (d["frame"], len(d["removed"]), fsutil.state_hash(obs["share"] if obs else None)[:8]),
                 "nontrivial": bool(d["removed"]), "obs": None}
 
